@@ -265,7 +265,46 @@ func (s *c01Sim) mutate(c *c01Member, e *verifadapt.Envelope, phase int) []*veri
 			out = append(out, f)
 		}
 	case *MemberPublicKeySharePointsMessage:
-		switch tp.Weighted("byz-p7", 8, 1, 3, 1) {
+		switch tp.Weighted("byz-p7", 8, 1, 3, 1, 4) {
+		case 4: // points of a polynomial that agrees with the real one only at a chosen subset of receivers
+			k := 1 + tp.Choose("p7-subset-size", len(m.publicKeySharePoints)-1+0)
+			if k > len(m.publicKeySharePoints)-1 {
+				k = len(m.publicKeySharePoints) - 1
+			}
+			if k < 1 {
+				out = append(out, e)
+				break
+			}
+			oth := s.others(c.idx)
+			pm := tp.Perm("p7-subset", len(oth))
+			// p(x) = delta * prod_{i in K} (x - i), degree k <= t
+			poly := []*big.Int{s.randScalar("p7-delta")}
+			for j := 0; j < k; j++ {
+				root := big.NewInt(int64(oth[pm[j]]))
+				next := make([]*big.Int, len(poly)+1)
+				for d := range next {
+					next[d] = big.NewInt(0)
+				}
+				for d, cf := range poly {
+					// (cf x^d) * (x - root)
+					next[d+1].Add(next[d+1], cf)
+					next[d].Sub(next[d], new(big.Int).Mul(cf, root))
+				}
+				for d := range next {
+					next[d].Mod(next[d], bn256.Order)
+				}
+				poly = next
+			}
+			cp := &MemberPublicKeySharePointsMessage{senderID: m.senderID, sessionID: m.sessionID, publicKeySharePoints: append([]*bn256.G2(nil), m.publicKeySharePoints...)}
+			for d, cf := range poly {
+				if d < len(cp.publicKeySharePoints) {
+					cp.publicKeySharePoints[d] = new(bn256.G2).Add(cp.publicKeySharePoints[d], new(bn256.G2).ScalarBaseMult(cf))
+				}
+			}
+			if f := s.forge(c, cp); f != nil {
+				out = append(out, f)
+				r.Fault("byz-p7-points-valid-for-subset-only")
+			}
 		case 0:
 			out = append(out, e)
 		case 1:
